@@ -10,6 +10,7 @@ import (
 	"regexp"
 	"runtime"
 	"strconv"
+	"strings"
 	"sync"
 	"sync/atomic"
 	"time"
@@ -61,6 +62,34 @@ func IsLockWait(st string) bool {
 	return false
 }
 
+// WaitsInPackage reports whether goroutine gid, as shown in a dump of States(), waits for a lock taken directly by
+// code of the given package prefix (the first frame below runtime/sync/internal frames). A goroutine that spins and
+// is merely caught inside the logger's mutex is not "blocked on a cache lock".
+func WaitsInPackage(dump string, gid int64, prefix string) bool {
+	head := "goroutine " + strconv.FormatInt(gid, 10) + " ["
+	i := strings.Index(dump, "\n"+head)
+	if strings.HasPrefix(dump, head) {
+		i = -1
+	} else if i < 0 {
+		return false
+	}
+	rest := dump[i+1:]
+	if j := strings.Index(rest, "\n\n"); j >= 0 {
+		rest = rest[:j]
+	}
+	lines := strings.Split(rest, "\n")
+	for _, ln := range lines[1:] {
+		if strings.HasPrefix(ln, "\t") || ln == "" {
+			continue
+		}
+		if strings.HasPrefix(ln, "sync.") || strings.HasPrefix(ln, "runtime.") || strings.HasPrefix(ln, "internal/") || strings.HasPrefix(ln, "sync/") {
+			continue
+		}
+		return strings.HasPrefix(ln, prefix)
+	}
+	return false
+}
+
 type Status int
 
 const (
@@ -80,6 +109,7 @@ var seq atomic.Int64
 // Worker runs calls one at a time on its own goroutine.
 type Worker struct {
 	Name    string
+	LockPkg string // if set: only a wait entered directly from this package counts as "blocked" (see WaitsInPackage)
 	gid     int64
 	calls   chan func() any
 	mu      sync.Mutex
@@ -203,7 +233,7 @@ func (w *Worker) Settle(allowBlocked bool, watchdog time.Duration) (Status, stri
 		}
 		if spin%4 == 0 {
 			st, dump := States()
-			if IsLockWait(st[w.gid]) {
+			if IsLockWait(st[w.gid]) && (w.LockPkg == "" || WaitsInPackage(dump, w.gid, w.LockPkg)) {
 				lockSeen++
 				if lockSeen >= 2 && allowBlocked {
 					// re-check it did not finish meanwhile
